@@ -272,6 +272,69 @@ func (s *Schema) valid(t RType, v *Val) bool {
 	return true
 }
 
+// validity of what is actually serialised under an exclusion spec: an excluded field (or member) is never written, so its
+// content cannot make the emitted document illegal
+func (s *Schema) validUnder(t RType, v *Val, directives []string, path []string) bool {
+	if v == nil {
+		return true
+	}
+	sub := func(seg string) []string { return append(append([]string{}, path...), seg) }
+	switch {
+	case t.Primitive != "":
+		return true
+	case t.Array != nil:
+		for _, x := range v.Items {
+			if !s.validUnder(*t.Array, x, directives, sub("*")) {
+				return false
+			}
+		}
+		return true
+	case t.Map != nil:
+		for i, x := range v.Items {
+			if specExcludes(directives, sub(v.Keys[i])) {
+				continue
+			}
+			if !s.validUnder(*t.Map, x, directives, sub(v.Keys[i])) {
+				return false
+			}
+		}
+		return true
+	}
+	n := s.Types[t.Reference.Name]
+	switch n.Kind {
+	case "record":
+		for i, inc := range n.Includes {
+			if !s.validUnder(ref(inc), v.Incs[i], directives, path) {
+				return false
+			}
+		}
+		for i, f := range n.Fields {
+			if specExcludes(directives, sub(f.Name)) {
+				continue
+			}
+			if !s.validUnder(f.Type, v.Fields[i], directives, sub(f.Name)) {
+				return false
+			}
+		}
+		return true
+	case "standaloneUnion":
+		cnt := 0
+		for i, m := range n.Members {
+			if v.Fields[i] != nil {
+				cnt++
+				if specExcludes(directives, sub(m.Alias)) {
+					continue
+				}
+				if !s.validUnder(m.Type, v.Fields[i], directives, sub(m.Alias)) {
+					return false
+				}
+			}
+		}
+		return cnt == 1 || (n.HasNull && cnt == 0)
+	}
+	return s.valid(t, v)
+}
+
 func (v *Val) hasNaN() bool {
 	if v == nil {
 		return false
